@@ -28,7 +28,10 @@ MANIFEST = {
             'mod quant from the last meter change, play(quant) waking '
             'exactly there, bar/beat conversions inverse, next_bar >= beats '
             'and integral in bars, 0 <= beat_in_bar < beats_per_bar, '
-            'time_to_next_beat = grid - beats >= 0.',
+            'time_to_next_beat = grid - beats >= 0. A third stage runs '
+            'programs with tempo changes in simulated real-time mode '
+            '(jittered wake-ups) and compares every observed (seconds, '
+            'beats) pair with the reference model.',
     'note': 'Trusted: exact Fraction arithmetic on the floats the library '
             'returns (all inputs dyadic, so the library\'s float results are '
             'exact); a second stage uses arbitrary floats with 1e-9 '
@@ -321,8 +324,43 @@ def cases(draw, exact=True):
             'beats': draw(st.one_of(st.none(), num)), 'steps': steps}
 
 
+# --- rt stage ----------------------------------------------------------------------
+# The same laws in real-time mode, where logical time lags physical time:
+# programs of routines on TempoClocks that change tempos while others sleep
+# run on the RT simulation (wake-up jitter from a generated tape); the
+# (seconds, beats) pairs every routine observes must be those of the affine
+# maps of the reference model, i.e. a tempo change keeps the logical
+# beat/second pair continuous whatever the physical lateness.
+
+def setup_rt():
+    from checks import c05
+    if not c05.RT:
+        from vlib import workers
+        c05.RT.append(workers.rtsim_worker())
+    return c05
+
+
+def run_rt(case, v):
+    c05 = setup_rt()
+    res = c05.run_rt(case, v)
+    p = case['prog']
+    tempo = any(op[0] == 'tempo' for r in p['routines'].values()
+                for op in r['body'])
+    res['nontrivial'] = bool(tempo and 'jitter' in res['labels'])
+    return res
+
+
+def teardown(ctx):
+    from checks import c05
+    for w in c05.RT:
+        w.close()
+
+
 def stages(ctx):
+    from checks import c05
     return [
         Stage('exact', run_case, cases(True), quick=1500, thorough=15000),
         Stage('float', run_float, cases(False), quick=500, thorough=5000),
+        Stage('rt', run_rt, c05.rt_cases(tempo_ops=True), quick=100,
+              thorough=1000),
     ]
